@@ -507,6 +507,15 @@ main(void)
 				free(ibase);
 				free(obase);
 			}
+		} else if (hc_is("freenull", 0)) {
+			/*
+			 * the end of a clean-up ladder whose objects were never created: both release functions accept NULL
+			 * (as free() does) on every path, accelerated or not; nothing changes (answered like an op without
+			 * effect: `skip`)
+			 */
+			crypto_aes_key_free(NULL);
+			crypto_aesctr_free(NULL);
+			printf("skip");
 		} else if (hc_is("free", 0)) {
 			if (S == NULL)
 				printf("skip");
